@@ -205,6 +205,20 @@ func (w *world) crashAndCheckT(onlyAfterLastCommit bool, torn bool) {
 	vf.Assert(!ab2, "restarted database accepts a new statement")
 	rows2, _, _ := r2.SelectAll("t1")
 	vf.Assert(len(rows2) == len(got)+1, "new row is visible next to the recovered ones")
+	// ... and keeps it: the process is killed right after that commit returned, then restarted once more
+	r2.Sdb.ShutdownForTescase()
+	vf.FsCrash(vf.FsTraceLen(), 0)
+	r3 := sysx.OpenReal(dbName, 200)
+	rows3, sc3, ab3 := r3.SelectAll("t1")
+	vf.Assert(!ab3, "scan after the final restart is not aborted")
+	n99 := 0
+	for _, row := range rows3 {
+		if row.GetValue(sc3, 0).ToInteger() == 99 {
+			n99++
+		}
+	}
+	vf.Assert(n99 == 1 && len(rows3) == len(got)+1, "a row committed after the recovery survives the next crash")
+	vf.Cover("c01.post-recovery-commit-durable")
 }
 
 func history(ntxn int, onlyAfterLastCommit bool) { historyT(ntxn, onlyAfterLastCommit, false) }
@@ -263,3 +277,38 @@ func grow(onlyAfterLastCommit bool) {
 
 func VF_C01_Grow() { grow(true) }
 func VF_C02_Grow() { grow(false) }
+
+// Earlier sessions in the history: between the transactions the database is closed — by Shutdown() or by
+// the process being killed while idle (everything issued so far is on disk) — and reopened by the real
+// start-up path (which truncates the log). The committed model carries over; crash points are counted
+// from the last reopen.
+func (w *world) boundary() {
+	kind := vf.Choose(2)
+	vf.Note("boundary", []string{"shutdown", "killed-idle"}[kind])
+	if kind == 0 {
+		w.r.Sdb.Shutdown()
+	} else {
+		w.r.Sdb.ShutdownForTescase()
+		vf.FsCrash(vf.FsTraceLen(), 0)
+	}
+	w.r = sysx.OpenReal(dbName, 200)
+	vf.Assert(w.r.Cat.GetTableByName("t1") != nil, "table is still there after a reopen")
+	w.commits = []commitRec{{0, vf.FsTraceLen(), w.cur}}
+	vf.Cover("c01.boundary")
+}
+
+func reopened(nb int, onlyAfterLastCommit bool, depth2 bool) {
+	w := open(50)
+	w.depth2 = depth2
+	w.txn(false)
+	for i := 0; i < nb; i++ {
+		w.boundary()
+	}
+	w.txn(true)
+	w.crashAndCheck(onlyAfterLastCommit)
+}
+
+func VF_C01_Reopened1() { reopened(1, true, false) }
+func VF_C01_Reopened2() { reopened(2, true, false) }
+func VF_C02_Reopened2() { reopened(2, false, false) }
+func VF_C20_Reopened2() { reopened(2, false, true) }
